@@ -7,7 +7,11 @@ d=/var/tmp/mut_${id}${ab}
 log=/var/tmp/vet_${id}${ab}.log
 rm -rf $d; mkdir -p $d
 cp -r /repo/development /repo/include /repo/tools /repo/test /repo/external $d/
-( cd $d && patch -p1 -s < $src/mutant${ab}.diff ) > $log 2>&1 || { echo "PATCH-FAILED" >> $log; exit 1; }
+# the agent's diff was made against an older HEAD: /var/tmp/rebased_<id><AB>.diff is its 3-way merge onto the current one
+# (development/ part applied with git apply --3way, single header re-joined); it applies without fuzz
+pf=$src/mutant${ab}.diff; [ -f /var/tmp/rebased_${id}${ab}.diff ] && pf=/var/tmp/rebased_${id}${ab}.diff
+( cd $d && patch -p1 -s -F0 < $pf ) > $log 2>&1 || { echo "PATCH-FAILED" >> $log; exit 1; }
+echo "patch=$pf" >> $log
 echo "== demo with change" >> $log
 g++ -std=c++14 -I$d/include $src/demo${ab}.cpp -o $d/demo_mut >> $log 2>&1 && ( $d/demo_mut > $d/demo_mut.out 2>&1; echo "demo_with_change_exit=$?" >> $log )
 g++ -std=c++14 -I/repo/include $src/demo${ab}.cpp -o $d/demo_orig >> $log 2>&1 && ( $d/demo_orig > $d/demo_orig.out 2>&1; echo "demo_without_change_exit=$?" >> $log )
